@@ -46,7 +46,7 @@ CHECKS = {
          "DESIGN.md §5 C17"),
  "C16": ("exploration",
          "runtime differential monitor (decoded slug vs baseline) over spellings / working directories / symlinked roots / call histories, and the Go race detector over concurrent Pack calls",
-         "For every generated tree and option set the decoded entry list of Pack by the absolute clean path is compared with the lists obtained under 21 variations of spelling, working directory, route through symlinks and preceding calls; concurrent rounds (fresh race-instrumented process each, 8-16 goroutines behind a barrier, default-rule and negation-first rule files mixed) compare every output with a solo run and treat any race-detector report as a violation.",
+         "For every generated tree and option set the decoded entry list of Pack by the absolute clean path is compared with the lists obtained under 23 variations of spelling, working directory, route through symlinks and preceding calls; concurrent rounds (fresh race-instrumented process each, 8-16 goroutines behind a barrier, default-rule and negation-first rule files mixed) compare every output with a solo run and treat any race-detector report as a violation.",
          "Interleavings are those the scheduler produced; the baseline is produced by the same code in the same process.",
          "DESIGN.md §5 C16"),
  "C03": ("exploration",
